@@ -1,5 +1,151 @@
 package c03
 
-import "github.com/magisterquis/curlrevshell/verifharness/mon"
+import (
+	"fmt"
+	"path/filepath"
+	"regexp"
+	"strings"
 
-func ptySessions(r *mon.Run) {}
+	"github.com/magisterquis/curlrevshell/verifharness/mon"
+	"github.com/magisterquis/curlrevshell/verifharness/mon/crs"
+)
+
+var ptyTok = regexp.MustCompile(`<o(\d+)>`)
+
+// ptySessions: the whole path down to the terminal.  A fake shell over raw
+// TLS sends numbered printable tokens in PRNG-sized writes; the de-escaped
+// terminal stream must show them exactly once, in order, and everything sent
+// before the client ended /o properly must precede the close notice.
+func ptySessions(r *mon.Run) {
+	bin, err := crs.Build(r.Work, "")
+	if err != nil {
+		r.Inconclusive("cannot build the binary: " + err.Error())
+		return
+	}
+	n := r.N(3, 20)
+	mon.Parallel(n, 6, func(i int) {
+		if !r.Want("pty", i) {
+			return
+		}
+		rng := r.Rng("pty", i)
+		home := filepath.Join(r.Work, fmt.Sprintf("pty-%d", i))
+		s, err := crs.Start(bin, home, "-listen-address", "127.0.0.1:0", "-tls-certificate-cache", "")
+		if err != nil {
+			r.Inconclusive("binary did not start: " + err.Error())
+			return
+		}
+		defer s.Close()
+		viol := func(key, what string) {
+			c := s.P.Clean()
+			if len(c) > 2500 {
+				c = c[len(c)-2500:]
+			}
+			r.Violate("pty", i, key, what, map[string]any{"terminal_tail": c})
+		}
+		bidir := rng.IntN(2) == 0
+		var in *crs.InStream
+		var out *crs.OutStream
+		if bidir {
+			io, err := crs.OpenIO(s.Addr)
+			if err != nil {
+				r.Inconclusive(err.Error())
+				return
+			}
+			in, out = io.In, io.Out
+		} else {
+			in, err = crs.OpenIn(s.Addr, "/i/p")
+			if err != nil {
+				r.Inconclusive(err.Error())
+				return
+			}
+			if _, ok := s.Wait(`Input connected`, 0, crs.Bound); !ok {
+				viol("pty-shell-does-not-attach", "no Input connected notice")
+				return
+			}
+			out, err = crs.OpenOut(s.Addr, "/o/p")
+			if err != nil {
+				r.Inconclusive(err.Error())
+				return
+			}
+		}
+		defer in.Close()
+		if _, ok := s.Wait(`Shell is ready`, 0, crs.Bound); !ok {
+			viol("pty-shell-does-not-attach", "no ready notice")
+			return
+		}
+		total := 300 + rng.IntN(1500)
+		sent := 0
+		for sent < total {
+			k := 1 + rng.IntN(40)
+			if rng.IntN(10) == 0 {
+				k = 200 + rng.IntN(300) // a write well beyond the broker's 2 KiB read buffer
+			}
+			var sb strings.Builder
+			for j := 0; j < k && sent < total; j++ {
+				fmt.Fprintf(&sb, "<o%d>", sent)
+				if rng.IntN(7) == 0 {
+					sb.WriteString("\n")
+				}
+				sent++
+			}
+			if err := out.Send(sb.String()); err != nil {
+				r.Inconclusive("send: " + err.Error())
+				return
+			}
+		}
+		natural := rng.IntN(3) != 0
+		if natural {
+			out.End() // the output stream ends by itself while the shell is attached
+		} else {
+			out.Close()
+		}
+		loc, ok := s.Wait(`Shell is gone`, 0, crs.Bound)
+		if !ok {
+			viol("pty-shell-does-not-end", "no gone notice after the output stream ended")
+			return
+		}
+		clean := s.P.Clean()
+		closedAt := strings.Index(clean, "connection closed")
+		if closedAt < 0 || closedAt > loc[0] {
+			closedAt = loc[0]
+		}
+		want := 0
+		lastPos := 0
+		for _, m := range ptyTok.FindAllStringSubmatchIndex(clean, -1) {
+			var v int
+			fmt.Sscan(clean[m[2]:m[3]], &v)
+			if v != want {
+				if r.Replaying() {
+					raw := string(s.P.Raw())
+					if k := strings.Index(raw, fmt.Sprintf("<o%d>", want-1)); k >= 0 {
+						r.Logf("RAW around: %q", raw[k:min(len(raw), k+120)])
+					}
+				}
+				viol("terminal-output-out-of-order", fmt.Sprintf("token <o%d> appears on the terminal where <o%d> was expected (lost, duplicated or reordered output)", v, want))
+				return
+			}
+			want++
+			lastPos = m[0]
+		}
+		if lastPos > closedAt {
+			viol("output-after-close-notice", "shell output appears on the terminal after the close/gone notice")
+		}
+		if natural && want != total {
+			viol("output-truncated-at-natural-end", fmt.Sprintf("the output stream ended by itself after %d tokens but the terminal shows only %d", total, want))
+		}
+		r.Eval(1)
+		r.Count("pty_sessions", 1)
+		r.Count("pty_tokens_sent", int64(total))
+		r.Count("pty_tokens_on_terminal", int64(want))
+		if natural {
+			r.Count("pty_natural_ends", 1)
+		}
+		r.Distinct(fmt.Sprintf("pty|%v|%v|%d", bidir, natural, total))
+		if i == 0 {
+			r.Sample("pty", map[string]any{"bidirectional": bidir, "natural_end": natural, "tokens": total, "on_terminal": want})
+		}
+		s.Quit()
+	})
+	r.Floor("pty_sessions", int64(n))
+	r.Floor("pty_tokens_on_terminal", 500)
+}
